@@ -74,9 +74,9 @@ Definition tstep (s : tstate) (l : tlabel) : option (tstate * list tout) :=
     if memN x (t_closed s) then None
     else Some (mk_ts (t_logs s) (t_closes s ++ [x]) (t_waits s) (t_spans s) (x :: t_closed s) (t_released s), [])
   | TSub x =>
-    if memN x (t_closed s)
-    then Some (mk_ts (t_logs s) (t_closes s) (t_waits s ++ [x]) (t_spans s) (t_closed s) (t_released s), [])
-    else None
+    (* usually the span has closed by now (the instrumented future is done); a span that OUTLIVES its future — a clone
+       of it is held elsewhere, e.g. by a spawned task — closes later: the subscription then waits in the span table *)
+    Some (mk_ts (t_logs s) (t_closes s) (t_waits s ++ [x]) (t_spans s) (t_closed s) (t_released s), [])
   | TFwd => Some (fwd_loop (S (length (t_logs s))) s)
   | TResult x => if memN x (t_released s) then Some (s, [TRes x]) else None
   end.
